@@ -161,3 +161,34 @@ def library_models(reg, opts):
         pass
     out.append(gres('engine.library-models#A3-float', not bad, 'disagreements: %r' % (bad[:5],)))
     return out
+
+
+@ground('engine.assumed-views')
+def assumed_views(reg, opts):
+    """Every contract marked trusted is a *view* (union over a partition of the instances, or a weakening) of contracts
+    that are verified against the real bodies.  Checked mechanically: the verified contracts exist, are not themselves
+    trusted, are in the cone of some claimed property, and - for the per-class unions - there is one for every method
+    of the specification table plus the short / unknown-id instance.  The implication itself is by construction."""
+    from props.catalog import PROPS
+    from spec import tables
+    in_cone = set()
+    for p in PROPS.values():
+        in_cone.update(n for k, n in p.units() if k == 'contract')
+    out = []
+    for c in reg.all:
+        if not c.trusted:
+            continue
+        names = list(c.established_by(reg)) if c.established_by else []
+        bad = [n for n in names if reg.get(n) is None or reg.get(n).trusted or n not in in_cone]
+        ok = bool(names) and not bad
+        detail = 'no verified contract named' if not names else 'missing / trusted / outside every cone: %r' % bad[:4]
+        if ok and '[' in names[0]:
+            have = {n[n.index('[') + 1:-1] for n in names}
+            missing = [m.name for m in tables.METHODS if m.name not in have]
+            if c.name.endswith('_unmarshal_method_frame') or c.name.endswith('_unmarshal_method_frame(t)'):
+                missing += [x for x in ('short-or-unknown-id',) if x not in have]
+            if c.name.endswith('unmarshal(g)'):
+                missing += [x for x in ('ContentHeader',) if x not in have]
+            ok, detail = not missing, 'no verified instance for %r' % missing[:4]
+        out.append(gres('engine.assumed-views#%s' % c.name, ok, detail))
+    return out
